@@ -314,6 +314,17 @@ pub fn run(args: &Args) {
             };
             ctx!("multi-select-hash").check(&format!("{{a: {}, b: {}}}", l, r), &expected_h, !doc.is_null());
         }
+        // 8a. n copies of one member side by side: n results, whatever n is
+        if i % 5 == 0 {
+            let n = [2usize, 3, 5, 9, 17, 33, 65, 70, 129, 140][rng.below(10)];
+            let expected: Out = if doc.is_null() {
+                Ok(Value::Null)
+            } else {
+                l_out.clone().map(|v| Value::Array((0..n).map(|_| json!({"v": v.clone(), "w": [v.clone()]})).collect()))
+            };
+            let member = format!("{{v: ({}), w: [({})]}}", l, l);
+            ctx!("multi-select-list-of-n-hashes").check(&format!("[{}]", (0..n).map(|_| member.clone()).collect::<Vec<_>>().join(", ")), &expected, !doc.is_null());
+        }
         // 8b. wide multi-selects of plain members, renamed in every order: member i of the result is
         // the value of field i, whatever the order of the output keys and of the document's keys
         if let Value::Object(m) = &doc {
